@@ -68,7 +68,7 @@ def writer_table(ctx, slot: str):
     """key -> (expression over declared columns, type) emitted by <List>.to_yaml; None if undecided."""
     M = ctx.M
     q = LISTS[slot] + ".to_yaml"
-    fn = M.fn(q)
+    fn = M.nfn(q, subst="alias")
     cols = M.list_columns(LISTS[slot])
     st: Dict[str, Tuple[ast.AST, Optional[str]]] = {c: (ast.Name(id=c, ctx=ast.Load()), None) for c in cols}
     problems = []
@@ -122,6 +122,11 @@ def writer_table(ctx, slot: str):
             c = op.args
             if op.name == "copy":
                 pass
+            elif op.name == "assign" and not c.args and all(k.arg for k in c.keywords):
+                # df.assign(a=<expr>, b=<expr>): every expression is evaluated on the frame as it is before the call
+                new_vals = {k.arg: rewrite(k.value) for k in c.keywords}
+                for k_, v_ in new_vals.items():
+                    st[k_] = (v_, None)
             elif op.name == "astype":
                 d = FO.dict_arg(c, lambda x: M.lit(fn.mod, x))
                 if d is None:
@@ -172,7 +177,7 @@ def reader_frame_table(ctx, slot: str, assume_present=("Lane", "EndTime")):
     """<List>.from_yaml: column -> ColState, plus issues [(node, message)]."""
     M = ctx.M
     q = LISTS[slot] + ".from_yaml"
-    fn = M.fn(q)
+    fn = M.nfn(q)
     st: Dict[str, ColState] = {}
     renames: Dict[str, str] = {}      # new name -> raw key (for columns first touched after the rename)
     issues = []
@@ -882,7 +887,7 @@ def rule_r10(ctx) -> List[R.Inst]:
     reach = _closure(ctx, [QUAMAP + ".read"])
     for slot in ("hits", "holds", "bpms", "svs"):
         q = LISTS[slot] + ".from_yaml"
-        fn = M.fn(q)
+        fn = M.nfn(q)
         file = M.mods[fn.mod].rel
         declared = set(M.list_columns(LISTS[slot]))
         key = f"{slot}:reader-projection"
@@ -893,7 +898,9 @@ def rule_r10(ctx) -> List[R.Inst]:
             continue
         # the last statement that fixes the column set before the constructor call
         proj = None
-        for n in sorted((x for x in walk_no_nested(fn.node) if hasattr(x, "lineno")), key=lambda x: (x.lineno, x.col_offset)):
+        in_order = [x for st_ in fn.node.body for x in sorted((y for y in ast.walk(st_) if hasattr(y, "lineno")),
+                                                              key=lambda y: (y.lineno, y.col_offset))]   # statement order (helpers are inlined)
+        for n in in_order:
             if isinstance(n, ast.Call) and isinstance(n.func, ast.Attribute) and n.func.attr == "reindex":
                 cols = n.args[0] if n.args else next((k.value for k in n.keywords if k.arg in ("columns", "labels")), None)
                 if cols is None:
